@@ -32,6 +32,9 @@ pub struct Case {
     pub history: u8,
     #[serde(default)]
     pub history_mask: u32,
+    /// soft RLIMIT_NOFILE of the run, in half descriptors per member of the widest group of the plan, plus 24 (0: inherited)
+    #[serde(default)]
+    pub nofile_per_member: u64,
 }
 
 pub fn strategy(max_n: usize) -> impl Strategy<Value = Case> {
@@ -52,9 +55,13 @@ pub fn strategy(max_n: usize) -> impl Strategy<Value = Case> {
         proptest::sample::select(vec![1usize, 2, 4, 16]),
         proptest::bool::weighted(0.3),
         proptest::bool::weighted(0.3),
-        (prop_oneof![5 => Just(0u8), 3 => Just(1u8), 1 => Just(2u8), 1 => Just(3u8)], any::<u32>()),
+        (
+            prop_oneof![5 => Just(0u8), 3 => Just(1u8), 1 => Just(2u8), 1 => Just(3u8)],
+            any::<u32>(),
+            prop_oneof![3 => Just(0u64), 1 => Just(13u64), 1 => Just(14u64)],
+        ),
     )
-        .prop_map(|(n, before, after, small, picks, ncmd, bc, gp, tw, listener, shared_exe, (history, history_mask))| {
+        .prop_map(|(n, before, after, small, picks, ncmd, bc, gp, tw, listener, shared_exe, (history, history_mask, nofile_per_member))| {
             let mut layers = vec![];
             for i in 0..before {
                 layers.push(small[i % small.len()]);
@@ -74,6 +81,8 @@ pub fn strategy(max_n: usize) -> impl Strategy<Value = Case> {
                 shared_exe,
                 history,
                 history_mask,
+                // only where the wide layer dominates what the process needs anyway
+                nofile_per_member: if n >= 24 && !listener { nofile_per_member } else { 0 },
             }
         })
 }
@@ -104,6 +113,13 @@ fn attempt(case: &Case, w: usize, timeout_ms: u64) -> Result<(bool, CaseInfo, Va
     big.sort_by_key(|(i, g)| (usize::MAX - g.len(), *i));
     let (gi, members) = big[pick(case.group_pick, big.len().min(2))];
     let n = members.len();
+    if case.nofile_per_member > 0 {
+        // a modest descriptor limit. Measured on the unchanged tree: a group of 34 needs 181-185
+        // descriptors (about 5 per running task plus a dozen); the limit leaves 6.5 or 7 per
+        // member plus 24
+        let widest = groups.iter().map(|g| g.len()).max().unwrap_or(n);
+        env.nofile = Some(case.nofile_per_member * widest as u64 / 2 + 24);
+    }
     let commands: Vec<String> = (0..case.ncmd).map(|i| format!("c{}", i)).collect();
     let mut beh = BTreeMap::new();
     for (ci, c) in commands.iter().enumerate() {
@@ -200,9 +216,13 @@ fn attempt(case: &Case, w: usize, timeout_ms: u64) -> Result<(bool, CaseInfo, Va
         .class_if(case.listener, "tail-listener-attached")
         .class_if(case.shared_exe, "shared-executable")
         .class_if(case.history != 0, "after-an-earlier-run")
+        .class_if(case.nofile_per_member > 0, "modest-open-files-limit")
         .class_if(history_failures > 0 && history_failures < n, "earlier-run-failed-for-part-of-the-group")
         .inv(env.invocations);
     let obs = json!({"group": members, "timeouts": timeouts, "run": out.brief()});
+    if case.nofile_per_member > 0 && format!("{}", obs).contains("Too many open files") {
+        return inconclusive("the descriptor limit chosen for this case was too small for monorail itself".into());
+    }
     if out.timed_out || !timeouts.is_empty() {
         return Ok((true, info, obs));
     }
